@@ -531,6 +531,8 @@ def freq_measure(repo, rep, rule):
 
 
 def run(repo, rep, tier):
+    from .round7b import hygiene
+    hygiene(repo, rep, "C01", ('wavespectra.specarray', 'wavespectra.core.xrstats', 'wavespectra.core.npstats', 'wavespectra.core.utils'), falsy=True)
     rep.rule("R-C01-12", "in the numpy-level statistics the axis of every reduction is a literal (the kernels get (freq, dir) arrays by contract), never derived from shapes")
     rep.floor("R-C01-12", "axis arguments in npstats", literal_axes(repo, rep, "R-C01-12"), 3)
     rep.rule("R-C01-15", "every sum over the frequency axis inside an integrated statistic (accessor methods and the numpy twins hs / dm / mom1) has an operand each of whose "
